@@ -606,8 +606,8 @@ func encodeXtext(raw string) string {
 			// printable non-space US-ASCII except '+' and '='
 			out.WriteRune(ch)
 		default:
-			out.WriteRune('+')
-			out.WriteString(strings.ToUpper(strconv.FormatInt(int64(ch), 16)))
+			// hexchar = "+" 2(%x30-39 / %x41-46)
+			fmt.Fprintf(&out, "+%02X", ch)
 		}
 	}
 	return out.String()
